@@ -1165,8 +1165,28 @@ pub fn random_meta(rng: &mut Rng) -> String {
     for _ in 0..rng.below(8) {
         content.push_str(rng.pick_s(META_CONTENT_TOKENS));
     }
-    match rng.below(6) {
-        0 => format!("<meta charset=\"{}\">", rng.pick_s(&["utf-8", "", "x", "a b", "é", "&quot;é&quot;"])),
+    // labels a decoder front end is likely to single out, in both cases
+    const LABELS: &[&str] = &["utf-8", "", "x", "a b", "é", "&quot;é&quot;", "UTF-8", "utf-16", "UTF-16LE", "utf-16be", "UTF-16", "utf-7", "windows-1252", "iso-8859-1", "x-user-defined", "replacement", "iso-2022-jp", "utf8", "unicode", "ascii", "none"];
+    let m = random_meta_tag(rng, &content, LABELS);
+    // what directly follows the tag matters to a tokenizer that is resumed after an encoding indicator: a BOM,
+    // a line break, another meta (two indicators in one chunk), an empty-valued charset
+    let follower = match rng.below(12) {
+        0 => "\u{feff}".to_string(),
+        1 => "\u{feff}x".to_string(),
+        2 => "\n".to_string(),
+        3 => "\r\n".to_string(),
+        4 => random_meta_tag(rng, &content, LABELS),
+        5 => format!("<meta charset>{}", random_meta_tag(rng, &content, LABELS)),
+        6 => "<meta charset=\"\"><meta name=a charset>".to_string(),
+        _ => String::new(),
+    };
+    format!("{m}{follower}")
+}
+
+fn random_meta_tag(rng: &mut Rng, content: &str, labels: &[&str]) -> String {
+    match rng.below(7) {
+        6 => format!("<meta charset={}>", rng.pick_s(&["utf-16", "UTF-16LE", "utf-16be", "utf-8", "x-user-defined", "\"\""])),
+        0 => format!("<meta charset=\"{}\">", rng.pick_s(labels)),
         1 => format!("<meta http-equiv=\"{}\" content=\"{content}\">", rng.pick_s(&["content-type", "Content-Type", "CONTENT-TYPE", "content-typ", "refresh"])),
         2 => format!("<meta content=\"{content}\" http-equiv=content-type>"),
         3 => format!("<meta content=\"{content}\">"),
